@@ -17,6 +17,19 @@ Theorem C01_accepted_head_is_strict : forall c x n p r p',
 Proof. exact accepted_head_is_strict_any_segmentation. Qed.
 Print Assumptions C01_accepted_head_is_strict.
 
+(* (a) with the PROXY protocol switched on: the first request of a connection may be preceded by exactly one PROXY line -
+   taken only on request number 1, only from a peer in proxy_allow_ips, only when well formed - and what follows it is a
+   strict head as above; otherwise no PROXY information is attached to the request *)
+Theorem C01_accepted_head_is_strict_with_proxy_protocol : forall c x n p r p',
+    NE p -> safe_cfg_px c -> parse_request c x n p = inl (r, p') ->
+    (r_proxy r = None /\ strict_head c (u_abs p) r (u_abs p'))
+    \/ (exists pline s' info,
+           proxy_protocol c = true /\ n = 1 /\ proxy_trusted c = true /\
+           u_abs p = pline ++ CRLF ++ s' /\ find_pat CRLF (u_abs p) = Some (length pline) /\ prefixb s_PROXY pline = true /\
+           parse_proxy_protocol x pline = inl info /\ r_proxy r = Some info /\ strict_head c s' r (u_abs p')).
+Proof. exact accepted_head_is_strict_px_any_segmentation. Qed.
+Print Assumptions C01_accepted_head_is_strict_with_proxy_protocol.
+
 (* (a) whatever Message.set_body_reader accepts is framed exactly as RFC 9112 section 6 frames it *)
 Theorem C01_framing_sound : forall hs ver f mc,
     set_body_reader hs ver = inl (f, mc) -> rfc_framing hs ver = Some f.
